@@ -4,7 +4,7 @@ Confirms each independently written seeded change (tools/verify_seed.sh) and, wh
 stores it as /verif/seeded/<id>/<mN>/{patch.diff,demo.rs,meta.json}."""
 import json, os, shutil, subprocess, sys
 for name in sys.argv[1:]:
-    src = "/tmp/seed/out/" + name
+    src = (os.environ.get("SEED_OUT", "/tmp/seed/out") + "/") + name
     pid, m = name.split("-")
     r = subprocess.run(["/verif/tools/verify_seed.sh", src, name], capture_output=True, text=True)
     line = [l for l in r.stdout.splitlines() if l.startswith(name)]
